@@ -901,6 +901,7 @@ class BisectionZD(Bisection1D):
         i = self.selection_key_outer
 
         old_height = 99999
+        selected_keys = {}
 
         while i < len(self.coordinates_domain_nested) and i < max_iter:
             self.coordinates_domain = self.coordinates_domain_nested[i]
@@ -911,6 +912,7 @@ class BisectionZD(Bisection1D):
             except ValueError:
                 break
             self.calculated_temperatures_nested[i] = self.calculated_temperatures
+            selected_keys[i] = selection_key
 
             self.ghe.compute_g_functions()
             self.ghe.size(method=TimestepType.HYBRID)
@@ -934,14 +936,8 @@ class BisectionZD(Bisection1D):
         selection_key_outer = keys[idx]
         self.calculated_temperatures = self.calculated_temperatures_nested[selection_key_outer]
 
-        keys = list(self.calculated_temperatures.keys())
-        values = list(self.calculated_temperatures.values())
-
-        negative_excess_values = [v for v in values if v <= 0.0]
-
-        excess_of_interest = max(negative_excess_values)
-        idx = values.index(excess_of_interest)
-        selection_key = keys[idx]
+        # the field that the search of that list selected (the smallest one it found to meet the limits)
+        selection_key = selected_keys[selection_key_outer]
         selected_coordinates = self.coordinates_domain_nested[selection_key_outer][selection_key]
 
         self.initialize_ghe(
